@@ -182,13 +182,35 @@ def exec_real(case):
         stats["adv"] += int(info["advanced"])
 
     wrap_method(core.reweighter, "run", before=before, after=after)
-    with quiet():
-        lib_call(s.run, n_total=96, progress=False, what="Sampler.run")
+    rewind = seed % 3 == 0 and case.get("narrow", 1.0) == 1.0
+    if rewind:
+        # the same sampler object is rewound: it runs to completion writing checkpoints, then resumes from an earlier one; every
+        # reweighting step of the second pass must again refer to the pool as it is then
+        import glob as _glob
+        import os as _os
+        from pathlib import Path as _Path
+        from vlib.runs import scratch_dir
+
+        with scratch_dir() as od, quiet():
+            object.__setattr__(core.config, "output_dir", _Path(od))
+            lib_call(s.run, n_total=96, progress=False, save_every=2, what="Sampler.run(save_every=2)")
+            cks = sorted((f for f in _glob.glob(_os.path.join(od, "*.state")) if not f.endswith("_final.state")),
+                         key=lambda f: int(_os.path.basename(f).split("_")[-1].split(".")[0]))
+            if cks:
+                np.random.seed(seed + 1)
+                lib_call(s.run, n_total=128, progress=False, resume_state_path=cks[len(cks) // 2], what="Sampler.run(resume on the same object)")
+    else:
+        with quiet():
+            lib_call(s.run, n_total=96, progress=False, what="Sampler.run")
     betas = [float(b) for b in sm.get_history("beta")]
+    if rewind:
+        classes_extra = ["rewound-on-same-object"]
+    else:
+        classes_extra = []
     if betas[0] != 0.0 or any(b2 < b1 for b1, b2 in zip(betas, betas[1:])) or betas[-1] > 1.0:
         raise Violation(f"temperature sequence of the run is not 0 = b1 <= b2 <= ... <= 1: {betas}", sig={"kind": "beta-order"})
     return {"nontrivial": stats["adv"] >= 1, "classes": ["metric:" + row["metric"], "clustering" if row["clustering"] else "noclustering",
-                                                         "advances=%d" % min(stats["adv"], 9)],
+                                                         "advances=%d" % min(stats["adv"], 9)] + classes_extra,
             "sample": {"row": row, "ess_ratio": case["ess_ratio"], "betas": betas}}
 
 
